@@ -1,5 +1,6 @@
 import Rbp.Model.Balances
 import Rbp.Proofs.Utxo
+import Rbp.Proofs.RunSpec
 /-!
 # C08 — balances lists each address once with the sum of its unspent outputs
 -/
@@ -31,6 +32,28 @@ theorem one_row_per_address (m : HashMap W.Bytes Unspent) :
 theorem balances_eq_unspent_aggregate (ver : UInt8) (bs : List EBlock) :
     balanceMap (utxo ver bs) = B.bal ∅ (pairs (U.run ∅ (opsOf ver bs))) := by
   rw [balanceMap_eq, utxo_eq_run]
+
+/-- **whole run.**  For a stored chain, `balances` — when no per-address sum leaves u64 (`balancePanics`, the code's own
+    `+=`) — exits 0 and writes one file `balances-start-maxH.csv`: the header followed by one row `address;balance` per
+    binding of `balanceMap` over the unspent set of exactly the delivered blocks -/
+theorem balances_run_spec (o : Run.Opts) (key : Option W.Bytes) (kvs : List (W.Bytes × W.Bytes)) (files : List Run.BlkFile)
+    (coin : Run.Coin) (ld : Run.Loaded) (hcoin : Run.coinOf o.coin = some coin) (hld : Run.loadIndex o kvs = .ok ld)
+    (hkey : key ≠ some []) (sz : Nat → Nat) (blk : Nat → W.Block)
+    (hs : ∀ k, o.start ≤ k → k < o.start + (ld.maxH + 1 - o.start) →
+      Run.Stored coin key (files.filterMap fun f => (Run.parseBlkIndex f.name).map fun n => (n, f)) ld.trimmed k (sz k) (blk k) ∧
+      (o.verify = true → Run.verifyBlock coin ld.trimmed (blk k).toR k = .ok ()))
+    (hne : o.start ≤ ld.maxH) (hcb : o.callback = "balances")
+    (hnp : balancePanics (utxo coin.version
+      ((List.range' o.start (ld.maxH + 1 - o.start)).map (fun k => (⟨k, sz k, (blk k).toR⟩ : EBlock)))) = false) :
+    let bs := (List.range' o.start (ld.maxH + 1 - o.start)).map (fun k => (⟨k, sz k, (blk k).toR⟩ : EBlock))
+    (Run.run o key kvs files).exit = 0 ∧
+    (Run.run o key kvs files).files =
+      [(s!"balances-{o.start}-{ld.maxH}.csv", "address;balance" :: balanceRows (utxo coin.version bs))] := by
+  intro bs
+  obtain ⟨h0, _, hf, _⟩ := Run.run_stored o key kvs files coin ld hcoin hld hkey sz blk hs hne
+    (by simp only [Run.callbackPanics, hcb]; exact hnp)
+  refine ⟨h0, ?_⟩
+  rw [hf]; simp only [Run.callbackOut, hcb]; rfl
 
 /-- non-vacuity: two outputs of one address and one of another -/
 example : B.sumFor "a" [("a", 5), ("b", 7), ("a", 9)] = 14 ∧ B.occurs "b" [("a", 5), ("b", 7), ("a", 9)] = true := by decide
